@@ -82,7 +82,11 @@ def handle (op : String) (j : Json) : Except String Json := do
     let items ← (← getArr j "items").mapM itemOfJson
     let rest ← itemOfJson (← j.getObjVal? "rest")
     let itemsF : Nat → Item := fun i => (items[i]?).getD rest
-    pure (respond (seqM kind itemsF) seqInit [] (← evsJ.mapM (evOfJson plainEv)) valToJson)
+    let inline := (j.getObjValAs? Bool "inline").toOption.getD false
+    if inline then
+      pure (respond (seqInlineM kind itemsF) seqInit [] (← evsJ.mapM (evOfJson plainEv)) valToJson)
+    else
+      pure (respond (seqM kind itemsF) seqInit [] (← evsJ.mapM (evOfJson plainEv)) valToJson)
   | "catch_handler" =>
     let res : Except Err Unit := match j.getObjValAs? String "res" with
       | .ok e => .error e
